@@ -1,4 +1,5 @@
 import SfxProofs.Iters
+import SfxProps.C12
 /-
   C17 — Math functions do a bounded amount of work, independent of operand magnitude.
   `itersOf (Trans.run m)` is the number of loop-body executions recorded by the model (the model's `tick`s sit exactly where the
@@ -27,6 +28,15 @@ theorem sharp (S D : Layout) (x y : Int) :
     itersOf (Trans.run (Trans.pow S D x y)) ≤ (D.n + 1) + D.f + (D.f - 2) ∧
     itersOf (Trans.run (Trans.sin D x)) ≤ 4 + 24 ∧ itersOf (Trans.run (Trans.tan D x)) ≤ 2 * (4 + 24) :=
   ⟨sqrt_iters S D x, log2_iters S D x, exp_iters S D x, pow_iters S D x y, cordicSteps_eq ▸ sin_iters D x, cordicSteps_eq ▸ tan_iters D x⟩
+
+/-- fuel sufficiency on the supported types: the fuelled model loops never reach their "fuel exhausted" panic — log2 (and hence ln, pow)
+and sin (hence cos, tan) return, so the structural bounds above are bounds on the REAL loops (which have no fuel) -/
+theorem fuel_suffices (D : Layout) (h : C12.Supp D) (x : Int) (hx : inRange D x) :
+    C12.Total (Trans.run (Trans.log2 D D x)) ∧ C12.Total (Trans.run (Trans.ln D D x)) ∧
+    (∃ r it, Trans.run (Trans.sin D x) = .ok (some r, it) false ∧ it ≤ 26) := by
+  obtain ⟨_, h2, h3, _⟩ := C12.result_functions_hold D h x x hx hx 0
+  obtain ⟨r, it, h4, h5, _⟩ := (C12.sin_cos_total D h x hx).1
+  exact ⟨h2, h3, r, it, h4, h5⟩
 
 example : ((⟨true, 64, 32⟩ : Layout).f ≤ (⟨true, 64, 32⟩ : Layout).n) := by decide
 
